@@ -29,7 +29,8 @@ ASSUMPTIONS = ["the behaviour/default tables re-stated here are the documented o
 MONITORS = ["policy_outcome", "first_offender_named", "unmodified", "second_call_same", "roundtrip_sm_ssc_sm"]
 REQUIRED = ["returned", "InvalidPropertyException", "NotImplementedError", "partial_mapping", "default_with_blanks",
             "nonempty_default_value", "two_offenders_table_order_differs", "template_with_charts", "chart_offender",
-            "copy_anyway_simfile_level", "error_behaviour", "template_empty", "chart_property_after_notes"]
+            "copy_anyway_simfile_level", "error_behaviour", "template_empty", "chart_property_after_notes",
+            "custom_key_resembling_a_table_entry"]
 
 COPY, IGNORE, UNLESS_DEFAULT, ERROR = 1, 2, 3, 4
 KINDS = ["SSC_VERSION", "METADATA", "FILE_PATH", "GAMEPLAY_EVENT", "TIMING_DATA"]
@@ -83,6 +84,8 @@ def gen_source(rng, small=False):
     items = [["TITLE", "t"], ["ARTIST", "a"], ["OFFSET", "0.000"], ["BPMS", "0.000=120.000"], ["STOPS", ""], ["CUSTOMKEY", "kept"],
              ["BGCHANGES", ""], ["ATTACKS", "TIME=1:END=2:MODS=x"]]
     items = rng.sample(items, rng.randint(2, len(items)))
+    for k in rng.sample(["V", "ION", "VER", "WARP", "AR", "S", "N", "PREVIEWVID2", "ORIGIN2", "COMBO"], rng.choice([0, 1, 2])):
+        items.append([k, rng.choice(["custom", "", "x y"])])  # ordinary keys that merely resemble table entries
     keys = list(SIMFILE_TABLE)
     nk = rng.choice([0, 1, 2, 3]) if small else rng.choice([0, 1, 2, 4, 8, len(keys)])
     for k in rng.sample(keys, nk):
@@ -317,6 +320,8 @@ def observe(ctx, source, mapping, case):
             ctx.feat("nonempty_default_value")
         if kind and behaviour(mapping, kind) == COPY:
             ctx.feat("copy_anyway_simfile_level")
+    if any(k in ("V", "ION", "VER", "WARP", "AR", "S", "N") for k, _ in source["items"]):
+        ctx.feat("custom_key_resembling_a_table_entry")
     if len(offenders) >= 2 and sorted(offenders, key=TABLE_ORDER.index)[0] != offenders[0]:
         ctx.feat("two_offenders_table_order_differs")
     if 0 < len(mapping) < 5:
